@@ -281,6 +281,101 @@ func init() {
 		}
 		return retExit(st, e.strConst(re.Re.ReplaceAllString(src, repl)))
 	}
+	// FindString on symbolic text: the span the native matcher finds on one concrete witness of the text, accepted
+	// only when the solver shows that it is the span for every text the path admits: the pattern matches exactly
+	// s[i:j], no match starts before i, and no other end is possible for a match starting at i.
+	stubs["(*regexp.Regexp).FindString"] = func(e *Engine, st *State, fr *Frame, fn *ssa.Function, args []Value, pos token.Pos) []exit {
+		re, px := reRecv(e, st, args[0], pos)
+		if px != nil {
+			return px
+		}
+		s := args[1].(StrV)
+		if cs, ok := s.Concrete(); ok {
+			return retExit(st, e.strConst(re.Re.FindString(cs)))
+		}
+		if s.Opaque {
+			panic(unsupported("FindString on opaque string"))
+		}
+		c := e.tc
+		cond := e.reMatchTerm(re.Pat, s.B)
+		var out []exit
+		okF := e.feasible(st, cond, "regexp match")
+		noF := e.feasible(st, c.Not(cond), "regexp no match")
+		if noF {
+			s2 := st
+			if okF {
+				s2 = st.fork()
+				e.stats.States++
+			}
+			s2.assume(c.Not(cond))
+			out = append(out, exit{st: s2, kind: exitReturn, val: StrV{}})
+		}
+		if okF {
+			st.assume(cond)
+			v, m, _ := e.sol.Check("regexp witness", st.pc)
+			if v != Sat {
+				panic(unsupported("regexp witness query failed"))
+			}
+			full := e.padModel(m, s.B...)
+			wit := make([]byte, len(s.B))
+			for i, b := range s.B {
+				r, _ := c.Eval(b, full)
+				wit[i] = byte(r.C)
+			}
+			loc := re.Re.FindStringIndex(string(wit))
+			if loc == nil {
+				panic(unsupported("regexp simulation disagrees with the native matcher on " + re.Pat))
+			}
+			i, j := loc[0], loc[1]
+			// the span is the same for every admitted text when every byte falls, for all its admitted values,
+			// on one side of every character class of the pattern (then the matcher takes the same steps)
+			rx, err := syntax.Parse(re.Pat, syntax.Perl)
+			if err != nil {
+				panic(unsupported("regexp/syntax: " + err.Error()))
+			}
+			prog, err := syntax.Compile(rx.Simplify())
+			if err != nil {
+				panic(unsupported("regexp/syntax compile: " + err.Error()))
+			}
+			for k := range prog.Inst {
+				in := &prog.Inst[k]
+				if in.Op != syntax.InstRune && in.Op != syntax.InstRune1 {
+					continue
+				}
+				if syntax.Flags(in.Arg)&syntax.FoldCase != 0 {
+					panic(unsupported("FindString on symbolic text: case-folding class in " + re.Pat))
+				}
+				for _, b := range s.B {
+					member := c.False
+					if len(in.Rune) == 1 {
+						member = c.Eq(b, c.BV(uint64(in.Rune[0])&0xff, 8))
+						if in.Rune[0] > 0xff {
+							member = c.False
+						}
+					} else {
+						for r := 0; r+1 < len(in.Rune); r += 2 {
+							lo, hi := in.Rune[r], in.Rune[r+1]
+							if lo > 0xff {
+								continue
+							}
+							if hi > 0xff {
+								hi = 0xff
+							}
+							member = c.Or(member, c.And(c.BVUle(c.BV(uint64(lo), 8), b), c.BVUle(b, c.BV(uint64(hi), 8))))
+						}
+					}
+					if member.IsTrue() || member.IsFalse() {
+						continue
+					}
+					if e.feasible(st, member, "byte in class") && e.feasible(st, c.Not(member), "byte not in class") {
+						panic(unsupported("FindString on symbolic text whose match span depends on the text: " + re.Pat))
+					}
+				}
+			}
+			out = append(out, exit{st: st, kind: exitReturn, val: StrV{B: append([]*Term{}, s.B[i:j]...)}})
+		}
+		return out
+	}
 	stubs["(*regexp.Regexp).FindStringSubmatch"] = func(e *Engine, st *State, fr *Frame, fn *ssa.Function, args []Value, pos token.Pos) []exit {
 		re, px := reRecv(e, st, args[0], pos)
 		if px != nil {
